@@ -1430,7 +1430,8 @@ fn families_of(prop: &str, tier: Tier) -> Vec<Cfg> {
             e.props = vec!["C18"];
             e.ops = vec![OpK::Sub, OpK::Unsub, OpK::Poll, OpK::DropConn];
             e.io = IoMenu::benign();
-            e.sub_counts = vec![2, 3, 1];
+            e.sub_counts = vec![2, 3, 1, 9, 17];
+            e.tx = 4096;
             e.broker.ack_fail = true;
             e.max_ops = if q { 6 } else { 8 };
             e.max_conns = 2;
